@@ -171,6 +171,10 @@ def execute(cfg):
 def run(tier):
     run = Run("C16", tier, "model_checking")
     d = scratch("c16")
+    mres = tlc.run("LatticeModel.tla", "LatticeModel.cfg" if tier == "quick" else "LatticeModel_full.cfg", timeout=2400)
+    if mres.violated:
+        raise MachineryError("LatticeModel: theorem %s of the exact minimum-image definitions fails" % mres.violated)
+    run.add_model(mres, "LatticeModel: MicSymmetric, SafeKSuffices, BasisIndependent, MicBelowDirect, ShiftInvariant on 5 cells x 8 pbc x 4 basis changes x difference vectors")
     cfgs = configs(tier)
     keep, skipped = [], 0
     for group in pmap(execute, cfgs, chunksize=8):
